@@ -9,7 +9,8 @@ from ..ref import ssa as RS
 from ..util import Stream
 
 A, B, C, D = 'A', 'B', 'C', 'D'
-TIMES = {'u5': [0.0, 0.25, 0.5, 0.75, 1.0], 'u4h': [0.0, 0.5, 1.0, 1.5], 'u7': [0.25 * i for i in range(7)]}
+TIMES = {'nu5': [0.0, 0.25, 0.5, 1.0, 1.25],      # uneven: the entry point warns and simulates; the queue's step is the first interval
+         'u5': [0.0, 0.25, 0.5, 0.75, 1.0], 'u4h': [0.0, 0.5, 1.0, 1.5], 'u7': [0.25 * i for i in range(7)]}
 
 
 def dly(typ, reactants=(), products=(), **kw):
@@ -61,6 +62,11 @@ def configs(tier):
                             continue
                         out.append(dict(spec=sp, grid=g, safe=safe, route=route,
                                         bound=2 if tier == 'quick' else 3))
+            # an uneven grid (queue step = first interval, as many slots as time points)
+            # (not with a volume: there the step is the interface's default dt = 0.01, which is not a binary fraction of the grid)
+            for route in ('entry', 'delay'):
+                if tier == 'thorough' or route == 'entry' or sp['name'].startswith('D3'):
+                    out.append(dict(spec=sp, grid='nu5', safe=False, route=route, bound=2))
             # simulators without delay support: both parts at the firing time
             out.append(dict(spec=sp, grid='u5', safe=False, route='ssa', bound=2))
             out.append(dict(spec=sp, grid='u5', safe=False, route='volume', bound=2))
